@@ -22,7 +22,7 @@ LEVEL = "exploration"
 RULE = ("random histories: 3 data shares + a streak queue + a deck, 7-10 logs covering every rule with random "
         "loggee sets (1-3) and field selections (all / subset / reordered / initially absent field), writer steps "
         "before / after / both sides of the logger step, repeated or fresh values, stamping and non-stamping writes, "
-        "logger stepped every tick or every 3rd tick, optional STOP..START restart; distinct = digest of the whole "
+        "logger stepped every tick or every 3rd tick, optional STOP..START restart; START sent to a running logger; writes that create fields (Share.create as mapping / pairs / keywords); distinct = digest of the whole "
         "spec; non-trivial = at least 3 logger runs and at least one write after the first run")
 META = {"engine": "F logging", "technique": "history of unique-valued writes + per-rule sequential model on parsed log files",
         "level_text": "exploration: every generated history is decided exactly by the model; histories are sampled, not exhausted",
